@@ -422,7 +422,7 @@ def csr_internals(ctx):
 
 
 IDNA_SAMPLES = ["example.org", "Example.ORG", "ns1.xn--HLO-bma.Example.com", "XN--HLO-BMA.example.com", "m\u00fcnchen.de", "M\u00dcNCHEN.De", "*.Example.org",
-                "a.b-c.D", "stra\u00dfe.example", "\u4f8b\u3048.\u30c6\u30b9\u30c8"]
+                "a.b-c.D", "stra\u00dfe.example", "\u4f8b\u3048.\u30c6\u30b9\u30c8", "*.b\u00fccher.example.org", "_acme-challenge.B\u00dccher.example", "a_b.example.org"]
 
 
 def idna_rule(ctx, rid):
